@@ -78,6 +78,12 @@ def m1(name, p=None):
         th, ph, la = p
         c, s = math.cos(th / 2), math.sin(th / 2)
         return np.array([[c, -np.exp(i * la) * s], [np.exp(i * ph) * s, np.exp(i * (ph + la)) * c]], dtype=complex)
+    if name == "ug":
+        return m1("u", p)
+    if name == "r":
+        th, ph = p
+        c, s = math.cos(th / 2), math.sin(th / 2)
+        return np.array([[c, -i * np.exp(-i * ph) * s], [-i * np.exp(i * ph) * s, c]], dtype=complex)
     if name == "dg":
         return np.diag([np.exp(i * p[0]), np.exp(i * p[1])]).astype(complex)
     if name == "x90":
@@ -267,13 +273,14 @@ def observe(p):
     free = [i for i in range(m) if i not in hm]
     if len(free) % 2:
         raise RuntimeError("odd number of non-herald modes")
-    qubits = []
+    qubits, names = [], []
     for a, b in zip(free[0::2], free[1::2]):
         pa, pb = p.get_input_port(a), p.get_input_port(b)
         if b != a + 1 or pa is not pb or getattr(pa, "encoding", None) != Encoding.DUAL_RAIL:
             raise RuntimeError(f"modes {a},{b} are not one dual-rail port")
         qubits.append(a)
-    return {"m": m, "u": u, "heralds": her, "qubits": qubits, "ps": p.post_select_fn}
+        names.append(pa.name)
+    return {"m": m, "u": u, "heralds": her, "qubits": qubits, "ps": p.post_select_fn, "names": names}
 
 
 def table_request(ob, g, want_leak, spec):
@@ -361,19 +368,68 @@ def run_catalog_case(case):
 # converters
 # ------------------------------------------------------------------------------------------------
 ONE_Q = {
-    "qiskit": ["h", "x", "y", "z", "s", "sdg", "t", "tdg", "rx", "ry", "rz", "p", "sx", "u", "i", "dg"],
+    "qiskit": ["h", "x", "y", "z", "s", "sdg", "t", "tdg", "rx", "ry", "rz", "p", "sx", "u", "r", "i", "dg"],
     # myQLM: daggered gates (`S.dag()` -> "D-S") are outside the converter's supported set (cleanly rejected)
-    "myqlm": ["h", "x", "y", "z", "s", "t", "rx", "ry", "rz", "p", "i", "dg"],
+    "myqlm": ["h", "x", "y", "z", "s", "t", "rx", "ry", "rz", "p", "i", "dg", "ug"],
     # cQASM: `I` is parsed but rejected ("Unsupported 1-qubit gate I"): outside the supported set
     "cqasm": ["h", "x", "y", "z", "s", "sdg", "t", "tdg", "rx", "ry", "rz", "x90", "mx90", "y90", "my90"],
 }
 TWO_Q = {"qiskit": ["cx", "cz", "swap"], "myqlm": ["cx", "cz", "swap"], "cqasm": ["cx", "cz"]}
-GENERIC = {"qiskit": {"sx", "u", "i", "dg"}, "myqlm": {"i", "dg"}, "cqasm": set()}
+GENERIC = {"qiskit": {"sx", "u", "r", "i", "dg"}, "myqlm": {"i", "dg", "ug"}, "cqasm": set()}
 PARAM1 = {"rx", "ry", "rz", "p"}
+MULTI_PARAM = {"u": 3, "ug": 3, "r": 2, "dg": 2}     # generic gates with several parameters
 
 
-def gen_ops(rng, fw, n, n_gates, max_heralded):
-    """random gate sequence; at most `max_heralded` two-qubit gates that may end up heralded (bounds the photons)"""
+def rand_params(rng, g):
+    if g in PARAM1:
+        return float(rng.choice([rng.uniform(-6, 6), rng.choice([0.3, -1.1, math.pi / 3, 2.5])]))
+    if g in ("u", "ug"):
+        return [float(rng.uniform(0.2, 3.0)), float(rng.uniform(-3, 3)), float(rng.uniform(-3, 3))]
+    if g == "r":
+        return [float(rng.uniform(0.2, 3.0)), float(rng.uniform(-3, 3))]
+    if g == "dg":   # diagonal unknown gate: the three phase-only branches of _create_generic_1_qubit_gate
+        a, b = float(rng.uniform(-3, 3)), float(rng.uniform(-3, 3))
+        return rng.choice([[a, b], [0.0, b], [a, 0.0]])
+    return None
+
+
+def twin_of(rng, op, n, keep_first=None):
+    """a gate with the same name as `op` that agrees with it on part of its parameters only (the same first
+    parameter and other remaining ones, or the converse), on a random qubit: what a lookup keyed by an incomplete
+    description of the gate would confuse with `op`"""
+    g, p = op["g"], op.get("p")
+    tw = {"g": g, "q": [rng.randrange(n)]}
+    if isinstance(p, list):
+        q = list(p)
+        if keep_first is None:
+            keep_first = rng.random() < 0.7
+        idxs = list(range(1, len(q))) if keep_first else [0]
+        for k in (idxs if rng.random() < 0.5 else [rng.choice(idxs)]):
+            q[k] = float(q[k] + rng.choice([-1, 1]) * rng.uniform(0.5, 1.5))
+        tw["p"] = q
+    elif p is not None:
+        tw["p"] = float(p + rng.choice([-1, 1]) * rng.uniform(0.5, 1.5))
+    return tw
+
+
+def is_twin(a, b):
+    """same gate name, same first parameter, different gate"""
+    pa, pb = a.get("p"), b.get("p")
+    return (a["g"] == b["g"] and isinstance(pa, list) and isinstance(pb, list) and pa[0] == pb[0] and pa != pb
+            and not (a["g"] == "dg" and 0.0 in pa + pb))
+
+
+def has_twins(ops):
+    return any(is_twin(a, b) for a, b in itertools.combinations(ops, 2))
+
+
+def has_param_twins(ops):
+    return any(a["g"] == b["g"] and a["g"] in PARAM1 and a["p"] != b["p"] for a, b in itertools.combinations(ops, 2))
+
+
+def gen_ops(rng, fw, n, n_gates, max_heralded, twins=None):
+    """random gate sequence; at most `max_heralded` two-qubit gates that may end up heralded (bounds the photons).
+    twins: insert a gate that shares its name and part of its parameters with an earlier one (None: sometimes)"""
     ops = []
     two = 0
     for _ in range(n_gates):
@@ -390,14 +446,23 @@ def gen_ops(rng, fw, n, n_gates, max_heralded):
                 continue
         g = rng.choice(ONE_Q[fw])
         op = {"g": g, "q": [rng.randrange(n)]}
-        if g in PARAM1:
-            op["p"] = float(rng.choice([rng.uniform(-6, 6), rng.choice([0.3, -1.1, math.pi / 3, 2.5])]))
-        if g == "u":
-            op["p"] = [float(rng.uniform(0.2, 3.0)), float(rng.uniform(-3, 3)), float(rng.uniform(-3, 3))]
-        if g == "dg":   # diagonal unknown gate: the three phase-only branches of _create_generic_1_qubit_gate
-            a, b = float(rng.uniform(-3, 3)), float(rng.uniform(-3, 3))
-            op["p"] = rng.choice([[a, b], [0.0, b], [a, 0.0]])
+        p = rand_params(rng, g)
+        if p is not None:
+            op["p"] = p
         ops.append(op)
+    if twins is None:
+        twins = rng.random() < 0.35
+    if twins:
+        multi = [g for g in ONE_Q[fw] if g in MULTI_PARAM and g != "dg"] or [g for g in ONE_Q[fw] if g in PARAM1]
+        cand = [op for op in ops if op["g"] in multi]
+        if cand and rng.random() < 0.5:
+            base = rng.choice(cand)
+        else:
+            g = rng.choice(multi)
+            base = {"g": g, "q": [rng.randrange(n)], "p": rand_params(rng, g)}
+            ops.insert(rng.randint(0, len(ops)), base)
+        pos = next(i for i, o in enumerate(ops) if o is base)
+        ops.insert(rng.randint(pos + 1, len(ops)), twin_of(rng, base, n))
     return ops
 
 
@@ -405,15 +470,17 @@ def has_generic(fw, ops):
     return any(op["g"] in GENERIC[fw] for op in ops)
 
 
-def build_qiskit(n, ops):
+def build_qiskit(n, ops, reg=None):
     import qiskit
-    qc = qiskit.QuantumCircuit(n)
+    qc = qiskit.QuantumCircuit(n) if reg is None else qiskit.QuantumCircuit(qiskit.QuantumRegister(n, reg))
     for op in ops:
         g, q, p = op["g"], op["q"], op.get("p")
         if g == "i":
             qc.id(q[0])
         elif g == "u":
             qc.u(p[0], p[1], p[2], q[0])
+        elif g == "r":
+            qc.r(p[0], p[1], q[0])
         elif g == "dg":
             qc.unitary(m1("dg", p), [q[0]])
         elif p is not None:
@@ -444,6 +511,11 @@ def build_myqlm(n, ops):
             ag = AbstractGate("DG", [float, float], arity=1)
             ag.set_matrix_generator(lambda a, b: np.diag([np.exp(1j * a), np.exp(1j * b)]))
             gate = ag(p[0], p[1])
+        elif g == "ug":
+            from qat.lang.AQASM import AbstractGate
+            ag = AbstractGate("UG", [float, float, float], arity=1)
+            ag.set_matrix_generator(lambda a, b, c: m1("u", [a, b, c]))
+            gate = ag(p[0], p[1], p[2])
         elif g == "sdg":
             gate = S.dag()
         elif g == "tdg":
@@ -476,8 +548,41 @@ def fl(x):
     return s if ("." in s or "e" in s or "n" in s) else s + ".0"
 
 
-def build_cqasm(n, ops, style):
-    """style: 'v3' | 'v3multi' (merge equal neighbouring 1-qubit gates into a multi-target statement) | 'v1'"""
+def decl_refs(decl):
+    """[(name, index | -1)] per qubit, declaration order — computed here from the widths, independently of the code"""
+    out = []
+    for name, size in decl:
+        out += [(name, -1)] if size < 0 else [(name, i) for i in range(size)]
+    return out
+
+
+def decl_names(decl):
+    return [nm if i < 0 else f"{nm}[{i}]" for nm, i in decl_refs(decl)]
+
+
+def gen_decl(rng, n, want_array_first=False):
+    """random cQASM v3 declarations of n qubits: arrays (also of size 1) and single qubits in any order, names in
+    no particular order"""
+    names = ["q", "a", "b", "anc", "r", "psi", "x0", "zz", "c1", "m"]
+    rng.shuffle(names)
+    parts = []
+    left = n
+    if want_array_first and n >= 3:
+        k = rng.randint(2, n - 1)
+        parts.append(k)
+        left -= k
+    while left:
+        k = rng.randint(1, left)
+        parts.append(k)
+        left -= k
+    if not want_array_first:
+        rng.shuffle(parts)
+    return [[names[i], (k if (k > 1 or rng.random() < 0.3) else -1)] for i, k in enumerate(parts)]
+
+
+def build_cqasm(n, ops, style, decl=None):
+    """style: 'v3' | 'v3multi' (merge equal neighbouring 1-qubit gates into a multi-target statement) | 'v1'
+    decl: [[name, size | -1], ...] declared qubit variables (v3; default one array q)"""
     if style == "v1":
         lines = ["version 1.0", "", f"qubits {n}", ""]
         for op in ops:
@@ -485,7 +590,14 @@ def build_cqasm(n, ops, style):
             tgt = ", ".join(f"q[{k}]" for k in op["q"])
             lines.append(f"{nm} {tgt}" + (f", {fl(op['p'])}" if op.get("p") is not None else ""))
         return "\n".join(lines) + "\n"
-    lines = ["version 3", f"qubit[{n}] q"]
+    decl = decl or [["q", n]]
+    refs = decl_refs(decl)
+    assert len(refs) == n
+
+    def ref(k):
+        nm, i = refs[k]
+        return nm if i < 0 else f"{nm}[{i}]"
+    lines = ["version 3"] + [f"qubit {nm}" if size < 0 else f"qubit[{size}] {nm}" for nm, size in decl]
     i = 0
     while i < len(ops):
         op = ops[i]
@@ -494,29 +606,39 @@ def build_cqasm(n, ops, style):
             nm += f"({fl(op['p'])})"
         if len(op["q"]) == 1:
             tg = [op["q"][0]]
-            if style == "v3multi":
+            var, idx = refs[tg[0]]
+            if style == "v3multi" and idx >= 0:    # several targets of the same array in one statement
                 while i + 1 < len(ops) and ops[i + 1]["g"] == op["g"] and ops[i + 1].get("p") == op.get("p") \
-                        and len(ops[i + 1]["q"]) == 1 and ops[i + 1]["q"][0] not in tg:
+                        and len(ops[i + 1]["q"]) == 1 and ops[i + 1]["q"][0] not in tg \
+                        and refs[ops[i + 1]["q"][0]][0] == var:
                     i += 1
                     tg.append(ops[i]["q"][0])
-            lines.append(f"{nm} q[{', '.join(map(str, tg))}]")
+            if len(tg) > 1:
+                lines.append(f"{nm} {var}[{', '.join(str(refs[k][1]) for k in tg)}]")
+            else:
+                lines.append(f"{nm} {ref(tg[0])}")
         else:
-            lines.append(f"{nm} " + ", ".join(f"q[{k}]" for k in op["q"]))
+            lines.append(f"{nm} " + ", ".join(ref(k) for k in op["q"]))
         i += 1
     return "\n".join(lines) + "\n"
 
 
-def convert(fw, n, ops, ups, style="v3"):
-    """-> (processor, framework's own unitary or None)"""
+def make_converter(fw):
     from perceval.converters import QiskitConverter, MyQLMConverter, CQASMConverter
+    return {"qiskit": QiskitConverter, "myqlm": MyQLMConverter, "cqasm": CQASMConverter}[fw]()
+
+
+def convert(fw, n, ops, ups, style="v3", decl=None, reg=None, conv=None):
+    """-> (processor, framework's own unitary or None); conv: a converter object to (re)use"""
+    conv = conv if conv is not None else make_converter(fw)
     if fw == "qiskit":
-        qc = build_qiskit(n, ops)
+        qc = build_qiskit(n, ops, reg)
         own = None
         try:
             own = qiskit_unitary(qc)
         except Exception:
             own = None
-        return QiskitConverter().convert(qc, use_postselection=ups), own
+        return conv.convert(qc, use_postselection=ups), own
     if fw == "myqlm":
         circ = build_myqlm(n, ops)
         own = None
@@ -524,9 +646,20 @@ def convert(fw, n, ops, ups, style="v3"):
             own = myqlm_unitary(circ, n)
         except Exception:
             own = None
-        return MyQLMConverter().convert(circ, use_postselection=ups), own
-    src = build_cqasm(n, ops, style)
-    return CQASMConverter().convert(src, use_postselection=ups), None
+        return conv.convert(circ, use_postselection=ups), own
+    src = build_cqasm(n, ops, style, decl)
+    return conv.convert(src, use_postselection=ups), None
+
+
+def expected_port_names(case):
+    fw, n = case["fw"], case["n"]
+    if fw == "qiskit":
+        return [f"{case.get('reg') or 'q'}{i}" for i in range(n)]
+    if fw == "myqlm":
+        return [f"Q{i}" for i in range(n)]
+    if case.get("style") == "v1" or not case.get("decl"):
+        return [f"q[{i}]" for i in range(n)]
+    return decl_names(case["decl"])
 
 
 def gate_seq_for_model(fw, ops):
@@ -891,8 +1024,13 @@ def conv_cases(chk):
                     ops = [op for op in ops if op["g"] in ("h", "x", "y", "z", "s", "sdg", "t", "tdg", "rx", "ry", "rz",
                                                             "x90", "mx90", "y90", "my90", "cx", "cz")] or \
                           [{"g": "h", "q": [0]}]
+            extra = {}
+            if fw == "cqasm" and style != "v1" and i % 4 != 3:
+                extra["decl"] = gen_decl(rng, n, want_array_first=(i % 2 == 0))
+            if fw == "qiskit" and i % 3 == 0:
+                extra["reg"] = rng.choice(["qr", "a", "q"])
             for ups in (True, False):
-                cases.append({"kind": "conv", "fw": fw, "n": n, "ops": ops, "ups": ups, "style": style})
+                cases.append({"kind": "conv", "fw": fw, "n": n, "ops": ops, "ups": ups, "style": style, **extra})
     # hand-written regression shapes: reuse of a post-processed CNOT's qubits by CZ / SWAP / CNOT chains
     shapes = [
         (2, [("h", [0]), ("cx", [0, 1]), ("cz", [0, 1])]),
@@ -907,6 +1045,12 @@ def conv_cases(chk):
         (3, [("h", [2]), ("cx", [2, 1])]),
         (4, [("h", [3]), ("cx", [3, 1]), ("x", [0])]),
         (2, [("dg", [0], [0.7, -1.2]), ("h", [1]), ("dg", [1], [0.0, 1.1]), ("dg", [0], [0.4, 0.0])]),
+        # generic gates that share their name and first parameter, catalog gates that share name or angle
+        (2, [("u", [0], [math.pi / 2, 0.3, 0.7]), ("u", [1], [math.pi / 2, 1.1, -0.4])]),
+        (2, [("r", [0], [1.0, 0.0]), ("r", [1], [1.0, math.pi / 2]), ("r", [0], [2.0, math.pi / 2])]),
+        (2, [("ug", [1], [0.8, 0.3, 0.7]), ("ug", [1], [0.8, -1.0, 0.7]), ("ug", [0], [0.8, 0.3, 2.0])]),
+        (2, [("dg", [0], [0.7, -1.2]), ("dg", [1], [0.7, 0.9]), ("dg", [0], [-2.0, 0.9])]),
+        (2, [("rx", [0], 0.4), ("rx", [1], 1.7), ("ry", [0], 0.4), ("rz", [1], 0.4), ("rz", [0], -2.2)]),
     ]
     if chk.thorough:
         shapes.append((4, [("h", [1]), ("cx", [1, 3]), ("cx", [2, 0])]))
@@ -937,16 +1081,16 @@ MALFORMED = [
 ]
 
 
-def run_conv_case(case):
-    """-> dict(ob, g, own_dev, plan) or dict(err=class)"""
+def run_conv_case(case, conv=None):
+    """-> dict(ob, g, own_dev, plan, p); conv: converter object to reuse (default: a fresh one)"""
     fw, n, ops, ups = case["fw"], case["n"], case["ops"], case["ups"]
     g = source_unitary(n, ops)
-    p, own = convert(fw, n, ops, ups, case.get("style", "v3"))
+    p, own = convert(fw, n, ops, ups, case.get("style", "v3"), case.get("decl"), case.get("reg"), conv)
     own_dev = None
     if own is not None:
         own_dev = float(np.max(abs(own - g)))
     ob = observe(p)
-    return {"ob": ob, "g": g, "own_dev": own_dev, "plan": real_plan(p, n)}
+    return {"ob": ob, "g": g, "own_dev": own_dev, "plan": real_plan(p, n), "p": p}
 
 
 def shrink_conv(chk, pool, case, sig, tol):
@@ -957,14 +1101,7 @@ def shrink_conv(chk, pool, case, sig, tol):
             r = run_conv_case(c)
         except Exception:
             return False
-        ob = r["ob"]
-        if photons(ob) > 10:
-            return False
-        an = np_table(ob["u"], ob["m"], ob["qubits"], ob["heralds"], ob["ps"])
-        cn, devn = np_fit(an, r["g"])
-        if abs(cn) < 1e-9:
-            return sig.endswith("zero-success")
-        return devn / abs(cn) > tol
+        return np_fails(r["ob"], r["g"], tol, zero_counts=sig.endswith("zero-success"))
     from . import gens
     try:
         return gens.shrink_list(case["ops"], fails, max_rounds=40)
@@ -996,6 +1133,8 @@ def handle_tables(chk, pool, items, fixed):
                 small = shrink_conv(chk, pool, case, sig, tol)
                 chk.failures[-1] = (kind, sig, what + f" [shrunk to {[(o['g'], o['q']) for o in small]}]",
                                     dict(case, ops=small))
+        elif len(chk.failures) > before and case.get("kind") == "convseq":
+            refine_session_failure(chk, len(chk.failures) - 1, tol)
 
 
 def conv_signature(case, ob):
@@ -1016,7 +1155,12 @@ def conv_signature(case, ob):
 def run(chk: core.Check):
     chk.rule = ("catalog: every logic gate x every logical basis input/output (exhaustive per gate), parametrised gates "
                 "on an angle grid plus random angles; converters: random Qiskit/myQLM/cQASM circuits on 2-3 (thorough 4) "
-                "qubits with CZ, SWAP, non-adjacent qubits, generic one-qubit gates, use_postselection both ways; "
+                "qubits with CZ, SWAP, non-adjacent qubits, generic one-qubit gates (also several with the same name that "
+                "agree on part of their parameters only), use_postselection both ways, cQASM v3 programs with several "
+                "declared qubit variables (arrays and single qubits in any order); sessions: 2-3 circuits converted one "
+                "after the other by the SAME converter object (parameters changed, re-declared variables, other size), "
+                "each result against its own source and earlier results observed again; cQASM declarations: probe "
+                "programs of one-qubit gates, operand -> qubit exactly; "
                 "labelling: all CNOT sequences up to the stated length, exactly. distinct = distinct (gate, parameters) "
                 "or (front-end, gate sequence, use_postselection); non-trivial = a gate with heralds or post-selection, "
                 "or a circuit with at least two two-qubit gates")
@@ -1031,7 +1175,11 @@ def run(chk: core.Check):
     chk.required_branches = ["catalog:heralded", "catalog:postselected", "catalog:param", "catalog:ctrl-rotation",
                              "conv:qiskit", "conv:myqlm", "conv:cqasm", "conv:pp", "conv:heralded-cnot", "conv:cz",
                              "conv:swap", "conv:non-adjacent", "conv:generic-1q", "conv:generic-diag-2phase", "conv:generic-diag-upper", "conv:generic-diag-lower",
-                             "conv:ups-false", "label-mixed",
+                             "conv:ups-false", "conv:generic-twin", "conv:param-twin", "conv:cqasm-multi-decl",
+                             "conv:cqasm-single-var", "conv:cqasm-array-before-used-var", "conv:cqasm-names-unsorted",
+                             "conv:converter-reused", "conv:reused-generic-twin", "conv:reused-redeclared",
+                             "conv:reused-other-size", "cqprobe", "cqprobe:array-before-used-var",
+                             "cqprobe:converter-reused", "label-mixed",
                              "label-with-other-2q", "swap-non-adjacent", "cyclic:True", "cyclic:False", "malformed"]
     import perceval as pcvl
     pcvl.random_seed(chk.seed)
@@ -1086,19 +1234,24 @@ def run(chk: core.Check):
         lap("labelling")
         check_swap_modemap(chk, pool)
         lap("swap-modemap")
+        check_cqasm_decl(chk, pool)
+        lap("cqasm-declarations")
         # --- converted circuits
         items = []
         plan_reqs, plan_meta = [], []
         for case in conv_cases(chk):
             handle_conv_case(chk, case, items, plan_reqs, plan_meta, fixed)
         lap("convert-python")
-        for (case, real), rep in zip(plan_meta, pool.ask_many(plan_reqs)):
+        # --- long-lived converter objects: every conversion of a session against its own source
+        for sess in session_cases(chk):
+            handle_session(chk, sess, items, plan_reqs, plan_meta, fixed)
+        lap("sessions-python")
+        for (case, label, real), rep in zip(plan_meta, pool.ask_many(plan_reqs)):
             model = (rep.get("kinds"), rep.get("heralds"))
             kinds = [k for k in (model[0] or []) if k in TWOQ_COMPONENTS]
             if (kinds, model[1]) != (real[0], real[1]):
                 chk.fail("broken", "plan-model-mismatch",
-                         f"{case['fw']} {[(o['g'], o['q']) for o in case['ops']]} ups={case['ups']}: components/heralds "
-                         f"{real}, model {(kinds, model[1])}", case)
+                         f"{label}: components/heralds {real}, model {(kinds, model[1])}", case)
         handle_tables(chk, pool, items, fixed)
         lap("convert-lean")
         # --- malformed stream: unsupported gates are rejected with the class the dispatch model predicts
@@ -1131,15 +1284,45 @@ def run(chk: core.Check):
         pool.close()
 
 
-def handle_conv_case(chk, case, items, plan_reqs, plan_meta, fixed):
+def conv_shape_branches(chk, case, generated):
+    """counters of the input shapes the generator must produce (counted on generated cases only, so that the
+    stored corpus cannot hide a blind generator)"""
+    if not generated:
+        return
+    ops, fw = case["ops"], case["fw"]
+    if has_twins(ops):
+        chk.branch("conv:generic-twin")
+    if has_param_twins(ops):
+        chk.branch("conv:param-twin")
+    decl = case.get("decl")
+    if fw == "cqasm" and decl and case.get("style") != "v1":
+        if len(decl) >= 2:
+            chk.branch("conv:cqasm-multi-decl")
+        if any(size < 0 for _, size in decl):
+            chk.branch("conv:cqasm-single-var")
+        refs = decl_refs(decl)
+        used = {refs[k][0] for o in ops for k in o["q"]}
+        names = [nm for nm, _ in decl]
+        if any(size >= 2 and (set(names[i + 1:]) & used) for i, (nm, size) in enumerate(decl)):
+            chk.branch("conv:cqasm-array-before-used-var")
+        if names != sorted(names):
+            chk.branch("conv:cqasm-names-unsorted")
+
+
+def handle_conv_case(chk, case, items, plan_reqs, plan_meta, fixed, generated=True, conv=None, replay=None,
+                     label=None, sigp=None):
+    """converts one circuit (with `conv` when given: a converter object with a history) and queues the table / plan
+    questions; replay: what reproduces the case (default: the case itself).  -> result dict or None"""
     fw, n, ops, ups = case["fw"], case["n"], case["ops"], case["ups"]
-    label = f"{fw} {[(o['g'], o['q']) for o in ops]} use_postselection={ups}"
+    label = label or f"{fw} {[(o['g'], o['q']) for o in ops]} use_postselection={ups}" + \
+        (f" decl={case['decl']}" if case.get("decl") else "")
+    replay = replay if replay is not None else case
     try:
-        r = run_conv_case(case)
+        r = run_conv_case(case, conv)
     except Exception as e:
         chk.fail("violation", f"conv-raises-{type(e).__name__}",
-                 f"{label}: conversion raised {type(e).__name__}: {str(e)[:200]}", case)
-        return
+                 f"{label}: conversion raised {type(e).__name__}: {str(e)[:200]}", replay)
+        return None
     if r["own_dev"] is not None and r["own_dev"] > 1e-9:
         raise RuntimeError(f"harness: source unitary of {label} differs from the framework's own by {r['own_dev']}")
     ob = r["ob"]
@@ -1163,17 +1346,273 @@ def handle_conv_case(chk, case, items, plan_reqs, plan_meta, fixed):
             chk.branch("conv:generic-diag-" + ("2phase" if 0.0 not in o["p"] else "upper" if o["p"][0] == 0.0 else "lower"))
     if not ups:
         chk.branch("conv:ups-false")
+    conv_shape_branches(chk, case, generated)
     chk.count("conv_qubits", n)
     chk.count("conv_gates", len(ops))
     chk.count("conv_photons", photons(ob))
+    if fw == "cqasm":
+        chk.count("cqasm_declared_variables", len(case.get("decl") or [0]))
     for o in ops:
         chk.count("conv_gate_kind", o["g"])
-    chk.case(("conv", fw, json.dumps(ops, sort_keys=True), ups, case.get("style")), nontrivial=len(two) >= 2,
+    chk.case(("conv", fw, json.dumps(ops, sort_keys=True), ups, case.get("style"), json.dumps(case.get("decl")),
+              json.dumps(replay, sort_keys=True) if replay is not case else None), nontrivial=len(two) >= 2,
              sample={"fw": fw, "n": n, "ups": ups, "ops": [(o["g"], o["q"]) for o in ops], "components": kinds})
+    # the ports carry the names of the source qubits, in the order of the source's declarations
+    want = expected_port_names(case)
+    if ob["names"] != want:
+        chk.fail("broken", "conv-port-names", f"{label}: ports are named {ob['names']}, the source's qubits {want}",
+                 replay)
     plan_reqs.append({"op": "plan", "fixed": fixed, "ups": ups, "gates": gate_seq_for_model(fw, ops)})
-    plan_meta.append((case, (kinds, her)))
+    plan_meta.append((replay, label, (kinds, her)))
     tol = GENERIC_TOL if has_generic(fw, ops) else TOL
-    items.append((label, case, ob, r["g"], tol, conv_signature(case, ob)))
+    items.append((label, replay, ob, r["g"], tol, sigp or conv_signature(case, ob)))
+    return r
+
+
+# ------------------------------------------------------------------------------------------------
+# one converter object, several conversions: the result must not depend on what was converted before
+# ------------------------------------------------------------------------------------------------
+def session_circuit(rng, fw, n, want_param=True):
+    ops = gen_ops(rng, fw, n, rng.randint(1, 4), 1, twins=False)
+    multi = [g for g in ONE_Q[fw] if g in MULTI_PARAM and g != "dg"] or [g for g in ONE_Q[fw] if g in PARAM1]
+    if want_param and not any(o["g"] in multi for o in ops):
+        g = rng.choice(multi)
+        ops.insert(rng.randint(0, len(ops)), {"g": g, "q": [rng.randrange(n)], "p": rand_params(rng, g)})
+    c = {"n": n, "ops": ops, "ups": rng.random() < 0.7, "style": "v3"}
+    if fw == "cqasm":
+        c["decl"] = gen_decl(rng, n, want_array_first=rng.random() < 0.5)
+    return c
+
+
+def mutate_circuit(rng, fw, c, mode):
+    c = json.loads(json.dumps(c))
+    n = c["n"]
+    if mode == "twin":        # same gates, same names, same first parameters — other remaining parameters
+        for i, o in enumerate(c["ops"]):
+            if o.get("p") is not None and o["g"] != "dg":
+                tw = twin_of(rng, o, n, keep_first=True if isinstance(o["p"], list) else None)
+                tw["q"] = o["q"]
+                c["ops"][i] = tw
+    elif mode == "flip":
+        c["ups"] = not c["ups"]
+    elif mode == "resize":
+        c = session_circuit(rng, fw, 5 - n)
+    elif mode == "redeclare" and fw == "cqasm":     # the same variable names with other widths, in another order
+        old = [nm for nm, _ in c["decl"]]
+        d = gen_decl(rng, n, want_array_first=rng.random() < 0.5)
+        rng.shuffle(old)
+        c["decl"] = [[(old[i] if i < len(old) else nm), size] for i, (nm, size) in enumerate(d)]
+    elif mode == "fresh":
+        c = session_circuit(rng, fw, n)
+    return c          # "repeat": unchanged
+
+
+def session_cases(chk):
+    rng = chk.rng
+    out = []
+    for fw in ("qiskit", "myqlm", "cqasm"):
+        sched = (["redeclare", "twin", "resize", "redeclare", "flip", "redeclare"] if fw == "cqasm" else
+                 ["twin", "resize", "twin", "flip", "twin", "fresh"])
+        for i in range(chk.pick(6, 16)):
+            circuits = [session_circuit(rng, fw, rng.choice((2, 3)))]
+            for k in range(rng.randint(1, 2)):
+                mode = sched[i % len(sched)] if k == 0 else rng.choice(sched + ["repeat"])
+                circuits.append(mutate_circuit(rng, fw, circuits[-1], mode))
+            out.append({"kind": "convseq", "fw": fw, "circuits": circuits})
+    return out
+
+
+def same_ob(a, b):
+    return (a["m"] == b["m"] and a["heralds"] == b["heralds"] and a["qubits"] == b["qubits"] and a["names"] == b["names"]
+            and str(a["ps"]) == str(b["ps"]) and a["u"].shape == b["u"].shape and np.array_equal(a["u"], b["u"]))
+
+
+def handle_session(chk, sess, items, plan_reqs, plan_meta, fixed, generated=True):
+    fw, circuits = sess["fw"], sess["circuits"]
+    conv = make_converter(fw)
+    chk.count("session_length", len(circuits))
+    done = []
+    for k, c in enumerate(circuits):
+        case = dict(c, kind="conv", fw=fw)
+        replay = {"kind": "convseq", "fw": fw, "circuits": circuits[:k + 1]}
+        label = (f"{fw} conversion #{k + 1} by one converter object {[(o['g'], o['q']) for o in c['ops']]} "
+                 f"use_postselection={c['ups']}" + (f" decl={c['decl']}" if c.get("decl") else ""))
+        r = handle_conv_case(chk, case, items, plan_reqs, plan_meta, fixed, generated, conv,
+                             replay if k else case, label if k else None, "conv-session" if k else None)
+        if generated and k:
+            chk.branch("conv:converter-reused")
+            prev = circuits[k - 1]
+            if any(is_twin(a, b) for a in prev["ops"] for b in c["ops"]):
+                chk.branch("conv:reused-generic-twin")
+            if c.get("decl") and prev.get("decl") and c["decl"] != prev["decl"]:
+                chk.branch("conv:reused-redeclared")
+            if c["n"] != prev["n"]:
+                chk.branch("conv:reused-other-size")
+        done.append((case, r, label))
+    # a later conversion must not alter a processor returned earlier
+    for k, (case, r, label) in enumerate(done[:-1]):
+        if r is None:
+            continue
+        try:
+            late = observe(r["p"])
+        except Exception as e:
+            chk.fail("violation", "conv-session-earlier-result-altered",
+                     f"{label}: the processor cannot be observed any more after later conversions: "
+                     f"{type(e).__name__}: {str(e)[:120]}", {"kind": "convseq", "fw": fw, "circuits": circuits, "late": k})
+            continue
+        if not same_ob(r["ob"], late):
+            tol = GENERIC_TOL if has_generic(fw, case["ops"]) else TOL
+            items.append((label + " (observed again after the later conversions)",
+                          {"kind": "convseq", "fw": fw, "circuits": circuits, "late": k}, late, r["g"], tol,
+                          "conv-session-earlier-result-altered"))
+
+
+def np_fails(ob, g, tol, zero_counts=True):
+    if photons(ob) > 10:
+        return False
+    an = np_table(ob["u"], ob["m"], ob["qubits"], ob["heralds"], ob["ps"])
+    cn, devn = np_fit(an, g)
+    if abs(cn) < 1e-9:
+        return zero_counts
+    return devn / abs(cn) > tol
+
+
+def session_last_fails(sess, tol):
+    conv = make_converter(sess["fw"])
+    r = None
+    for c in sess["circuits"]:
+        r = run_conv_case(dict(c, kind="conv", fw=sess["fw"]), conv)
+    return np_fails(r["ob"], r["g"], tol)
+
+
+def shrink_session(sess, tol):
+    """fewer earlier conversions, then fewer gates in each circuit, while the last conversion still fails"""
+    from . import gens
+
+    def safe(s2):
+        try:
+            return session_last_fails(s2, tol)
+        except Exception:
+            return False
+    cur = json.loads(json.dumps(sess))
+    k = 0
+    while k < len(cur["circuits"]) - 1:
+        cand = dict(cur, circuits=cur["circuits"][:k] + cur["circuits"][k + 1:])
+        if safe(cand):
+            cur = cand
+        else:
+            k += 1
+    for k in range(len(cur["circuits"])):
+        def fails(ops, k=k):
+            cs = list(cur["circuits"])
+            cs[k] = dict(cs[k], ops=ops)
+            return safe(dict(cur, circuits=cs))
+        ops = gens.shrink_list(cur["circuits"][k]["ops"], fails, max_rounds=25)
+        cur["circuits"][k] = dict(cur["circuits"][k], ops=ops)
+    return cur
+
+
+def refine_session_failure(chk, idx, tol):
+    """a failing conversion of a session: does the circuit fail on its own (then it is an ordinary converter failure)
+    or only after the earlier conversions (history dependence)?"""
+    kind, sig, what, replay = chk.failures[idx]
+    if kind != "violation" or replay.get("kind") != "convseq" or "late" in replay:
+        return
+    last = dict(replay["circuits"][-1], kind="conv", fw=replay["fw"])
+    try:
+        r = run_conv_case(last)
+        alone = np_fails(r["ob"], r["g"], tol)
+    except Exception:
+        alone = False
+    if alone:
+        sig2 = conv_signature(last, r["ob"]) + sig[len("conv-session"):]
+        small = shrink_conv(chk, None, last, sig2, tol) if len(last["ops"]) > 1 else last["ops"]
+        chk.failures[idx] = (kind, sig2, what + f" — also with a fresh converter [shrunk to "
+                             f"{[(o['g'], o['q']) for o in small]}]", dict(last, ops=small))
+        return
+    small = shrink_session(replay, tol)
+    desc = "; then ".join(str([(o["g"], o["q"], o.get("p")) for o in c["ops"]]) +
+                          (f" decl={c['decl']}" if c.get("decl") else "") for c in small["circuits"])
+    chk.failures[idx] = (kind, "conv-history-dependent" + sig[len("conv-session"):],
+                         what + f" — the same circuit converted by a fresh converter is correct: the result depends on "
+                         f"what the converter object converted before [shrunk to: {desc}]", small)
+
+
+# ------------------------------------------------------------------------------------------------
+# cQASM: declared variables -> qubits, exactly (probe programs of one-qubit gates only: no fit, no permanent)
+# ------------------------------------------------------------------------------------------------
+def probe_source(decl, order):
+    refs = decl_refs(decl)
+    lines = ["version 3"] + [f"qubit {nm}" if size < 0 else f"qubit[{size}] {nm}" for nm, size in decl]
+    for k in order:
+        nm, i = refs[k]
+        lines.append(f"Rx({fl(0.1 + 0.2 * k)}) " + (nm if i < 0 else f"{nm}[{i}]"))
+    return "\n".join(lines) + "\n"
+
+
+def run_probe(chk, pool, probe, conv=None, generated=True):
+    """probe: {"kind":"cqprobe","decl":[[name,size|-1],…],"order":[qubit,…]} — gate k is Rx(0.1+0.2k) on qubit k"""
+    decl, order = probe["decl"], probe["order"]
+    refs = decl_refs(decl)
+    n = len(refs)
+    names = [nm for nm, _ in decl]
+    if generated:
+        chk.branch("cqprobe")
+        if any(size >= 2 and any(refs[k][0] in names[i + 1:] for k in order) for i, (nm, size) in enumerate(decl)):
+            chk.branch("cqprobe:array-before-used-var")
+        if conv is not None:
+            chk.branch("cqprobe:converter-reused")
+    chk.case(("cqprobe", json.dumps(decl), tuple(order)), nontrivial=len(decl) >= 2)
+    chk.count("cqasm_declared_variables", len(decl))
+    rep = pool.ask({"op": "cqdecl", "decls": decl, "refs": [list(refs[k]) for k in order]})
+    try:
+        p = (conv or make_converter("cqasm")).convert(probe_source(decl, order))
+        u = np.array(p.linear_circuit().compute_unitary(), dtype=complex)
+        real_names = [p.get_input_port(2 * k).name for k in range(p.circuit_size // 2)]
+        real_pos = [int(r[0]) // 2 for r, _ in p.components]
+    except Exception as e:
+        chk.fail("violation", f"cqasm-probe-raises-{type(e).__name__}",
+                 f"cQASM declarations {decl}, one-qubit gates on qubits {order}: {type(e).__name__}: {str(e)[:160]}", probe)
+        return
+    # direct oracle: the source program's unitary, qubits in declaration order (offsets = sums of widths)
+    want = np.eye(2 * n, dtype=complex)
+    for k in order:
+        want[2 * k:2 * k + 2, 2 * k:2 * k + 2] = m1("rx", 0.1 + 0.2 * k) @ want[2 * k:2 * k + 2, 2 * k:2 * k + 2]
+    if u.shape != want.shape or np.max(abs(u - want)) > 1e-9:
+        chk.fail("violation", "cqasm-operand-wrong-qubit",
+                 f"cQASM declarations {decl}: the gates written on qubits {[decl_names(decl)[k] for k in order]} (qubits "
+                 f"{order} in declaration order) are applied to qubits {real_pos}", probe)
+        return
+    if "err" in rep or rep.get("idx") != real_pos or rep.get("names") != real_names or rep.get("n") != n:
+        chk.fail("broken", "cqasm-decl-model-mismatch",
+                 f"cQASM declarations {decl}: code puts the gates on {real_pos} and names the ports {real_names}; model {rep}",
+                 probe)
+
+
+def check_cqasm_decl(chk, pool):
+    rng = chk.rng
+    conv = make_converter("cqasm")
+    for i in range(chk.pick(60, 250)):
+        n = rng.randint(2, chk.pick(6, 8))
+        decl = gen_decl(rng, n, want_array_first=(i % 2 == 0))
+        order = [k for k in range(n) if rng.random() < 0.8] or [n - 1]
+        rng.shuffle(order)
+        run_probe(chk, pool, {"kind": "cqprobe", "decl": decl, "order": order}, conv if i % 2 else None)
+    # references that name no declared qubit: the model says `list.index` fails, the code must reject them
+    for decl, ref, text in (([["a", 2], ["b", -1]], ["a", -1], "a"), ([["a", 2], ["b", -1]], ["b", 0], "b[0]"),
+                            ([["b", -1], ["a", 2]], ["a", -1], "a")):
+        chk.branch("malformed")
+        rep = pool.ask({"op": "cqdecl", "decls": decl, "refs": [ref]})
+        src = probe_source(decl, []) + f"H {text}\n"
+        got = "accepted"
+        try:
+            make_converter("cqasm").convert(src)
+        except Exception as e:
+            got = core.exc_class(e)
+        chk.case(("cqdecl-malformed", json.dumps(decl), text), nontrivial=False)
+        if rep.get("idx") != [None] or got == "accepted":
+            chk.fail("broken", "cqasm-decl-malformed-mismatch",
+                     f"cQASM {decl} with operand {text}: code {got}, model {rep}", {"kind": "cqmalformed", "src": src})
 
 
 def replay_case(chk, pool, data, fixed):
@@ -1185,12 +1624,28 @@ def replay_case(chk, pool, data, fixed):
                                    "catalog-" + case["name"].replace(" ", "-"))], fixed)
     elif kind == "conv":
         items, pr, pm = [], [], []
-        handle_conv_case(chk, case, items, pr, pm, fixed)
+        handle_conv_case(chk, case, items, pr, pm, fixed, generated=False)
         handle_tables(chk, pool, items, fixed)
+    elif kind == "convseq":
+        items, pr, pm = [], [], []
+        handle_session(chk, case, items, pr, pm, fixed, generated=False)
+        handle_tables(chk, pool, items, fixed)
+    elif kind == "cqprobe":
+        run_probe(chk, pool, case, generated=False)
+        if case.get("reuse"):      # the same converter object converts the probes one after the other
+            conv = make_converter("cqasm")
+            for pr in case["reuse"] + [case]:
+                run_probe(chk, pool, dict(pr, kind="cqprobe"), conv, generated=False)
     elif kind == "label":
         rr = pool.ask({"op": "label", "fixed": fixed, "gates": case["gates"]})
         real = labelling_real(case["gates"])
         chk.case(("label", json.dumps(case["gates"])), nontrivial=True)
+        if isinstance(real, list) and fixed:     # direct oracle: post-processed CNOTs + other two-qubit gates = forest
+            pp_edges = [tuple(g[1]) for g, lab in zip(case["gates"], real) if lab == PP]
+            oth = [tuple(g[1]) for g in case["gates"] if len(g[1]) == 2 and g[0].upper() not in ("CX", "CNOT")]
+            if not union_find_forest(pp_edges) or (union_find_forest(oth) and not union_find_forest(pp_edges + oth)):
+                chk.fail("violation", "label-ignores-2q", f"post-processed CNOTs {pp_edges} close a cycle with the other "
+                         f"two-qubit gates {oth} of {case['gates']}", case)
         if real != rr.get("labels"):
             chk.fail("broken", "label-model-mismatch", f"{case['gates']}: code {real}, model {rr}", case)
     else:
